@@ -175,15 +175,34 @@ func (br *xmpReader) readTagHeader(parent Tag) (tag Tag, err error) {
 	// Read Tag Header
 	var buf []byte
 	var i int
+	var grown bool
 	for {
 		if buf, err = br.Peek(s); err != nil {
-			err = errors.Wrap(err, "Tag Header")
-			return
+			if !grown {
+				err = errors.Wrap(err, "Tag Header")
+				return
+			}
+			// the larger window is not available (end of the packet, buffer size): use the one that was
+			s -= maxTagHeaderSize
+			if buf, err = br.Peek(s); err != nil {
+				err = errors.Wrap(err, "Tag Header")
+				return
+			}
 		}
 
 		// Find Start of Tag
 		for ; i < len(buf); i++ {
 			if buf[i] == '<' {
+				if len(buf)-i < maxTagHeaderSize/2 && !grown {
+					// the tag starts in the last bytes of the look-ahead window (after a long run of white
+					// space): look further before parsing it, so that its name is not cut off
+					grown = true
+					break
+				}
+				if i+1 >= len(buf) {
+					err = errors.Wrap(io.ErrUnexpectedEOF, "Tag Header")
+					return
+				}
 				if buf[i+1] == '/' {
 					tag.t = stopTag
 					i += 2
